@@ -38,9 +38,12 @@ func main() {
 		if len(keys) == 1 && keys[0] == "all" {
 			keys = nil
 			for k, c := range e.db.Funcs {
-				if (c.Kind == "func" || c.Kind == "lemma") && !c.Flags["trusted"] && !c.Flags["noverify"] {
+				if (c.Kind == "func" || c.Kind == "lemma") && !c.Flags["trusted"] && !c.Flags["noverify"] && !(c.Flags["inline"] && len(c.ClausesOf("ensures")) == 0) {
 					keys = append(keys, k)
 				}
+			}
+			for k := range e.db.Callers {
+				keys = append(keys, "callers."+k)
 			}
 			sort.Strings(keys)
 		}
